@@ -324,7 +324,10 @@ _call_like = re.compile(r"([A-Za-z_]\w*)\(")
 def parse_rvalue(s):
     s = s.strip()
     if s.startswith("&raw const "):
-        return Rvalue("addr", (False, parse_place(s[11:])))
+        rest = s[11:].strip()
+        if rest.startswith("(fake) "):
+            rest = rest[7:]
+        return Rvalue("addr", (False, parse_place(rest)))
     if s.startswith("&raw mut "):
         return Rvalue("addr", (True, parse_place(s[9:])))
     if s.startswith("&mut "):
